@@ -96,6 +96,27 @@ impl NameCompressor {
         }
     }
 
+    /// Forget all names at or beyond the given position.
+    ///
+    /// This has to be called when the message contents are cut back to `len`
+    /// bytes (e.g. because building an item failed half way through), as the
+    /// compressor would otherwise refer to names that are not there anymore.
+    /// `len` is an offset into the message contents, i.e. it does not count
+    /// the 12-byte message header.
+    pub fn truncate(&mut self, len: usize) {
+        for i in 0..32 {
+            // Entries are only ever based on earlier entries, so dropping
+            // everything from 'len' on never leaves a dangling parent.
+            if self.len[i] != 0 && self.pos[i] as usize >= len {
+                self.last_use[i] = 0;
+                self.pos[i] = 0;
+                self.len[i] = 0;
+                self.parent[i] = 0;
+                self.hash[i] = 0;
+            }
+        }
+    }
+
     /// Compress a [`RevName`].
     ///
     /// This is a low-level function; use [`BuildInMessage::build_in_message()`] to
